@@ -1,6 +1,7 @@
 import PycsepVerif.Proto
 import PycsepVerif.Model.Bin1d
 import PycsepVerif.Model.Bin1dCalls
+import PycsepVerif.Model.ReprDecimals
 import PycsepVerif.Proofs.Bin1dTables
 import PycsepVerif.Proofs.Bin1dTablesRegions
 /-! driver ops of property C02 (1-D binning, bin-edge generators) -/
@@ -52,6 +53,22 @@ def handle : List String → Option String
            | some l => showList showRat l
            | none => "fallback")
       | _, _, _, _ => "bad-op")
+  -- `c02_numdec xs` → `num_decimals(x)` per value (Model/ReprDecimals.lean: computed from the model's `repr`)
+  | ["c02_numdec", xs] => some (match parseList? parseRat? xs with
+      | some xs => showList (fun x => toString (ReprDec.numDecimals x)) xs
+      | none => "bad-op")
+  -- `c02_reprval xs` → the exact value of `repr(x)` per value
+  | ["c02_reprval", xs] => some (match parseList? parseRat? xs with
+      | some xs => showList (fun x => showRat (DecimalText.reprValue x)) xs
+      | none => "bad-op")
+  -- `c02_cleaner_auto s e h` → `<decS>,<decH> <path> <list>`: cleaner_range with the decimals computed by the model, both paths
+  | ["c02_cleaner_auto", s, e, h] => some (match parseRat? s, parseRat? e, parseRat? h with
+      | some s, some e, some h =>
+          let ds := ReprDec.numDecimals s
+          let dh := ReprDec.numDecimals h
+          let path := match cleanerRangeF s e h (max ds dh) with | some _ => "main" | none => "fallback"
+          s!"{ds},{dh} {path} {showList showRat (ReprDec.cleanerRangeAuto s e h)}"
+      | _, _, _ => "bad-op")
   | ["c02_decgrid", s, d, m, len] => some (match parseInt? s, parseInt? d, m.toNat?, len.toNat? with
       | some s, some d, some m, some len => showList showRat (decimalGrid s d m len)
       | _, _, _, _ => "bad-op")
